@@ -24,6 +24,7 @@ mod c19;
 mod c20;
 mod cs;
 mod dl;
+mod jpt;
 mod life;
 mod ls;
 mod md;
@@ -79,6 +80,7 @@ fn main() {
         "DL" => dl::replay(&cases, &mut rep),
         "LS" => ls::replay(&cases, &mut rep),
         "CS" => cs::replay(&cases, &mut rep),
+        "JPT" => jpt::replay(&cases, &mut rep),
         p => tool_error(&format!("no replay driver for {p}")),
       }
       rep.write(&args[4]);
